@@ -476,6 +476,11 @@ func TestRealNATS(t *testing.T) {
 		s := build(c)
 		started := make(chan struct{})
 		s.SetOnServe(func(*res.Service) { close(started) })
+		reconnected := make(chan struct{}, 1)
+		s.SetOnReconnect(func(*res.Service) { reconnected <- struct{}{} })
+		// a gateway's view of system.reset, subscribed before the service starts
+		resetSub, _ := client.SubscribeSync("system.reset")
+		_ = client.Flush()
 		exited := make(chan error, 1)
 		go func() { exited <- s.Serve(nc) }()
 		ok := false
@@ -487,10 +492,52 @@ func TestRealNATS(t *testing.T) {
 		}
 		if !ok {
 			evid.Violation(t, prop, "realnats", "Serve on a real NATS connection failed for valid configuration "+c.String(), c)
+			_ = resetSub.Unsubscribe()
 			nc.Close()
 			continue
 		}
 		_ = nc.Flush()
+		// the reset sent on start, then the one sent on reconnect (the service installs its
+		// reconnect handler on the *nats.Conn; it is invoked here as the client library would)
+		resetOK := true
+		for _, when := range []string{"start", "reconnect"} {
+			if when == "reconnect" {
+				cb := nc.Opts.ReconnectedCB
+				if cb == nil {
+					evid.Violation(t, prop, "realnats", "Serve on a *nats.Conn did not install a reconnect handler; config "+c.String(), c)
+					resetOK = false
+					break
+				}
+				cb(nc)
+				select {
+				case <-reconnected:
+				case <-time.After(10 * time.Second):
+				}
+				_ = nc.Flush()
+			}
+			m, err := resetSub.NextMsg(10 * time.Second)
+			if err != nil {
+				evid.Violation(t, prop, "realnats", fmt.Sprintf("no system.reset seen on %s; config %s", when, c), c)
+				resetOK = false
+				break
+			}
+			var reset struct {
+				Resources []string `json:"resources"`
+				Access    []string `json:"access"`
+			}
+			_ = json.Unmarshal(m.Data, &reset)
+			if set(reset.Resources) != set(wantRes) || set(reset.Access) != set(wantAcc) {
+				evid.Violation(t, prop, "realnats", fmt.Sprintf("system.reset on %s lists resources %v access %v, the owned patterns are %v / %v; config %s", when, reset.Resources, reset.Access, wantRes, wantAcc, c), c)
+				resetOK = false
+				break
+			}
+		}
+		_ = resetSub.Unsubscribe()
+		if !resetOK {
+			_ = s.Shutdown()
+			<-exited
+			continue
+		}
 		type want struct{ typ, pat string }
 		var wants []want
 		for _, p := range wantRes {
